@@ -56,6 +56,7 @@ theorem cnt_expandNodes (c : List Level) (k : Nat) (b : Name) (hb : cnt k (conte
       | loc => simpa only [expandNodes, textsOut, blockOcc, nextCalls] using ih
     | attr _ _ => simpa only [expandNodes, textsOut, blockOcc, nextCalls] using ih
     | args => simpa only [expandNodes, textsOut, blockOcc, nextCalls] using ih
+    | incl _ => simpa only [expandNodes, textsOut, blockOcc, nextCalls] using ih
     | defn _ _ _ => simpa only [expandNodes, textsOut, blockOcc, nextCalls] using ih
     | callTag _ => simpa only [expandNodes, textsOut, blockOcc, nextCalls] using ih
     | block nm ln kids =>
@@ -88,6 +89,7 @@ theorem mainBlocksL_texts : ∀ k : List Node, k.all isText = true → mainBlock
     | call _ _ _ _ => simp [isText] at h
     | attr _ _ => simp [isText] at h
     | args => simp [isText] at h
+    | incl _ => simp [isText] at h
     | defn _ _ _ => simp [isText] at h
     | block _ _ _ => simp [isText] at h
     | callTag _ => simp [isText] at h
@@ -104,6 +106,7 @@ theorem blockOcc_plain (b : Name) (lvl0 : Bool) : ∀ nodes : List Node, nodes.a
     | call _ _ _ _ => simpa [blockOcc, mainBlocksL, mainBlocksN] using ih
     | attr _ _ => simpa [blockOcc, mainBlocksL, mainBlocksN] using ih
     | args => simpa [blockOcc, mainBlocksL, mainBlocksN] using ih
+    | incl _ => simpa [blockOcc, mainBlocksL, mainBlocksN] using ih
     | defn _ _ _ => simpa [blockOcc, mainBlocksL, mainBlocksN] using ih
     | callTag _ => simpa [blockOcc, mainBlocksL, mainBlocksN] using ih
     | block nm ln kids =>
@@ -138,6 +141,7 @@ theorem findBlockN_isSome (x : Name) : ∀ n : Node, (findBlockN x n).isSome = t
   | .call .. => by simp [findBlockN, mainBlocksN]
   | .attr .. => by simp [findBlockN, mainBlocksN]
   | .args => by simp [findBlockN, mainBlocksN]
+  | .incl _ => by simp [findBlockN, mainBlocksN]
   | .defn _ _ _ => by simp [findBlockN, mainBlocksN]
   | .callTag _ => by simp [findBlockN, mainBlocksN]
   | .block none _ k => by simp [findBlockN, mainBlocksN, findBlockL_isSome x k]
